@@ -30,6 +30,9 @@ type qcfg struct {
 	Consumers  int    `json:"consumers"`
 	Block      bool   `json:"block_on_overflow"`
 	WFR        bool   `json:"wait_for_result"`
+	// StartCtxEnds: the context handed to Start is cancelled as soon as Start has returned (a start-up
+	// deadline), and the storage client honours contexts. Nothing the queue does afterwards may depend on it.
+	StartCtxEnds bool `json:"start_context_ends,omitempty"`
 }
 
 func (q qcfg) String() string {
@@ -37,7 +40,11 @@ func (q qcfg) String() string {
 	if q.Persistent {
 		k = "persistent"
 	}
-	return fmt.Sprintf("%s/%s/cap=%d/consumers=%d/block=%v/wfr=%v", k, q.Sizer, q.Capacity, q.Consumers, q.Block, q.WFR)
+	sc := ""
+	if q.StartCtxEnds {
+		sc = "/start-ctx-ends"
+	}
+	return fmt.Sprintf("%s/%s/cap=%d/consumers=%d/block=%v/wfr=%v%s", k, q.Sizer, q.Capacity, q.Consumers, q.Block, q.WFR, sc)
 }
 
 var marshaler plog.ProtoMarshaler
@@ -126,16 +133,17 @@ func (h hookCtx) Done() <-chan struct{} {
 }
 
 type rig struct {
-	cfg     qcfg
-	exp     exporter.Logs
-	tel     *componenttest.Telemetry
-	store   *qstore.Store
-	entered chan *entry
-	auto    atomic.Bool // export function returns nil immediately
-	yield   atomic.Int64
-	wedged  atomic.Bool
-	mu      sync.Mutex
-	handed  []*entry
+	cfg         qcfg
+	exp         exporter.Logs
+	tel         *componenttest.Telemetry
+	store       *qstore.Store
+	entered     chan *entry
+	auto        atomic.Bool // export function returns nil immediately
+	yield       atomic.Int64
+	wedged      atomic.Bool
+	startCancel context.CancelFunc
+	mu          sync.Mutex
+	handed      []*entry
 }
 
 func newRig(cfg qcfg) (*rig, error) { return newRigOn(cfg, nil) }
@@ -195,9 +203,18 @@ func newRigOn(cfg qcfg, st *qstore.Store) (*rig, error) {
 	if err != nil {
 		return nil, err
 	}
-	if err := exp.Start(context.Background(), host); err != nil {
+	startCtx, startCancel := context.WithCancel(context.Background())
+	if cfg.StartCtxEnds && r.store != nil {
+		r.store.HonorContext(true)
+	}
+	if err := exp.Start(startCtx, host); err != nil {
+		startCancel()
 		return nil, err
 	}
+	if cfg.StartCtxEnds {
+		startCancel()
+	}
+	r.startCancel = startCancel
 	r.exp = exp
 	return r, nil
 }
@@ -260,6 +277,9 @@ func (r *rig) close(limit time.Duration) bool {
 		select {
 		case <-done:
 			_ = r.tel.Shutdown(context.Background())
+			if r.startCancel != nil {
+				r.startCancel()
+			}
 			return true
 		case e := <-r.entered:
 			select {
